@@ -555,3 +555,81 @@ def variant_of(e):
     if e[0] == "agg":
         return e[2]
     return None
+
+
+def spine_calls(ctx, body, regex):
+    """Calls matching `regex` in execution order along the success spine (following the Continue edge
+    of every `?`). Returns (calls, straight) where straight is False when a non-`?` branch was met."""
+    r = re.compile(regex)
+    sym = ctx.sym(body)
+    gi = ctx.gi(body)
+    out = []
+    cur = 0
+    seen = set()
+    straight = True
+    while cur is not None and cur not in seen:
+        seen.add(cur)
+        blk = body.blocks[cur]
+        t = blk.term
+        if t.kind == "call":
+            c = t.callee or t.declared or ""
+            if r.search(c):
+                out.append((blk, c, sym.call_expr(t)))
+        if t.kind == "switch":
+            nxt = None
+            for tgt, g in gi.by_switch.get(cur, []):
+                if g.kind == "is" and g.name == "Continue":
+                    nxt = tgt
+            if nxt is None:
+                straight = False
+                break
+            cur = nxt
+        else:
+            ss = body.succs(cur)
+            cur = ss[0] if ss else None
+    return out, straight
+
+
+def slice_call_blocks(body, operand_or_local, regex, max_nodes=400):
+    """Blocks of calls matching `regex` in the backward data slice of a local/operand (through
+    assignments, casts, projections and non-matching calls)."""
+    r = re.compile(regex)
+    start = operand_or_local
+    if isinstance(start, int):
+        work = [start]
+    elif start.kind == "const":
+        return []
+    else:
+        work = [start.place.local]
+    seen = set()
+    out = []
+    live = body.live_blocks()
+    while work and len(seen) < max_nodes:
+        l = work.pop()
+        if l in seen:
+            continue
+        seen.add(l)
+        for blk, si in body.defs.get(l, []):
+            if blk not in live:
+                continue
+            if si == "term":
+                t = body.blocks[blk].term
+                c = t.callee or t.declared or ""
+                if r.search(c):
+                    out.append(blk)
+                    continue
+                for a in t.d["args"]:
+                    if a.kind != "const":
+                        work.append(a.place.local)
+            else:
+                rv = body.blocks[blk].stmts[si].rv
+                for k in ("a", "b"):
+                    o = rv.get(k)
+                    if o is not None and hasattr(o, "kind") and o.kind != "const":
+                        work.append(o.place.local)
+                if rv.get("p") is not None:
+                    work.append(rv["p"].local)
+                for o in rv.get("ops", []) or []:
+                    if o.kind != "const":
+                        work.append(o.place.local)
+    return sorted(set(out))
